@@ -34,13 +34,13 @@ type pureCase struct {
 	Actions   []pureAction `json:"actions"`
 }
 
-// c08World: the world without entries whose formatting or conversion is
-// address- or map-iteration-dependent (pointers inside values, map-typed
-// parameters), and without the clock.
+// c08World: the world without entries whose formatting is address-dependent
+// (pointers inside values) and without the clock. Map-typed host parameters
+// are included: a failed conversion of a map with several unconvertible
+// entries must report the same error every time.
 func c08World() map[string]spec.V {
 	w := worldSpec()
 	delete(w, "pst")
-	delete(w, "fnM")
 	delete(w, "$loc")
 	st := w["st"]
 	m := map[string]spec.V{}
@@ -234,14 +234,14 @@ var c08Cfg = func() genCfg {
 	cfg := c03Cfg
 	var callees []string
 	for _, c := range cfg.Callees {
-		if c != "now" && c != "toDay" && c != "fnM" && c != "pst" {
+		if c != "now" && c != "toDay" && c != "pst" {
 			callees = append(callees, c)
 		}
 	}
 	cfg.Callees = callees
 	var names []string
 	for _, nm := range cfg.Names {
-		if nm != "pst" && nm != "fnM" && nm != "$loc" {
+		if nm != "pst" && nm != "$loc" {
 			names = append(names, nm)
 		}
 	}
@@ -334,6 +334,10 @@ func TestC08Repeat(t *testing.T) {
 			progs = append(progs, b+"("+a+")", b+"("+a+", 2)", b+"('a', "+a+", 1)")
 		}
 	}
+	for _, a := range []string{"m", "mi", "ms", "mik", "st", "arr", "n"} {
+		// map-typed parameter: a map with several unconvertible entries
+		progs = append(progs, "fnM("+a+")", "[fnM("+a+") ?? 1, fnM("+a+")]")
+	}
 	for _, x := range []string{"i", "s", "m", "arr", "n", "f64", "t", "st", "dec", "u64"} {
 		for _, y := range []string{"i64", "sn", "mi", "strs", "np"} {
 			for _, op := range ref.BinOps {
@@ -343,7 +347,7 @@ func TestC08Repeat(t *testing.T) {
 		}
 	}
 	for _, f := range mustErrorCases() {
-		if !strings.Contains(f, "fnM") && !strings.Contains(f, "pst") {
+		if !strings.Contains(f, "pst") {
 			progs = append(progs, f)
 		}
 	}
